@@ -1057,7 +1057,7 @@ def get_rankval(model, res, strictness, rank_type, **kwargs):
     elif rank_type == 'aic':
         return calculate_aic(model, res.ofv)
     elif rank_type == 'bic':
-        bic_type = kwargs.get('bic_type')
+        bic_type = kwargs.get('bic_type', 'mixed')
         return calculate_bic(model, res.ofv, type=bic_type)
     else:
         raise ValueError(f'Unknown rank_type: got `{rank_type}`, must be ofv, lrt, aic, or bic')
